@@ -248,15 +248,28 @@ def check_input(rep, name, ts, stats):
     nonsample = sorted(u for u in range(ts.num_nodes) if not ts.node(u).is_sample())
     atol = 1e-9 * ts.sequence_length
 
-    sbs = prior.SpansBySamples(ts)
+    # an exception raised by tsdate on an input that satisfies the precondition is a failure of the contract
+    try:
+        sbs = prior.SpansBySamples(ts)
+    except Exception as e:  # noqa: BLE001
+        rep.case("spans-equal-direct-per-tree-count", False, key=name, input={"ts": tsj},
+                 observed=f"SpansBySamples raised {type(e).__name__}: {e}", expected="span tables")
+        return
     rep.case("nodes-to-date-are-the-non-sample-nodes",
              sorted(int(x) for x in sbs.nodes_to_date) == nonsample, key=name, input={"ts": tsj},
              observed=sorted(int(x) for x in sbs.nodes_to_date), expected=nonsample, nontrivial=False)
 
     cct = prior.ConditionalCoalescentTimes(None, "gamma")
-    for T in {T for d in want.values() for (T, _k) in d}:
-        cct.add(int(T))
-    mix = {d: prior.MixturePrior(ts, prior_distribution=d) for d in ("gamma", "lognorm")}
+    for T in {T for d in want.values() for (T, _k) in d} | {int(T) for u in nonsample if u in sbs.node_span_data
+                                                            for T in sbs.get_spans(u)}:
+        if T >= 1:
+            cct.add(int(T))
+    try:
+        mix = {d: prior.MixturePrior(ts, prior_distribution=d) for d in ("gamma", "lognorm")}
+    except Exception as e:  # noqa: BLE001
+        rep.case("prior-params-encode-mixture-moments", False, key=name, input={"ts": tsj},
+                 observed=f"MixturePrior raised {type(e).__name__}: {e}", expected="prior parameters")
+        mix = {}
 
     for u in nonsample:
         key = f"{name}:u{u}"
@@ -286,9 +299,13 @@ def check_input(rep, name, ts, stats):
 
         mean_q, var_q = mixture_moments(exp)
         mean_e, var_e = float(mean_q), float(var_q)
-        m_o, v_o = cct.mixture_expect_and_var(got_raw)
+        try:
+            m_o, v_o = (float(x) for x in cct.mixture_expect_and_var(got_raw))
+        except Exception as e:  # noqa: BLE001
+            m_o = v_o = math.nan
+            rep.notes.append(f"{key}: mixture_expect_and_var raised {type(e).__name__}: {e}")
         rep.case("mixture-moments-are-span-weighted", close(m_o, mean_e) and close(v_o, var_e), key=key,
-                 input=inp, observed=[float(m_o), float(v_o)], expected=[mean_e, var_e], nontrivial=nontrivial)
+                 input=inp, observed=[m_o, v_o], expected=[mean_e, var_e], nontrivial=nontrivial)
         for d, mp in mix.items():
             a, b = (float(x) for x in mp.prior_params[u])
             m_d, v_d = decode(d, a, b)
